@@ -206,7 +206,9 @@ func runC05(c *Ctx) {
 	if c.Quick() {
 		parserModelCases(c, items, 8000)
 		gfmModelCases(c, items, 4000)
+		otherModelCases(c, items, 500)
 	} else {
+		otherModelCases(c, items, 20000)
 		parserModelCases(c, items, 80000)
 		gfmModelCases(c, items, 40000)
 	}
